@@ -25,7 +25,7 @@ def run(ctx):
     r = ctx.tlc_must_pass('fs', 'MemFS', cfg, workers=8, timeout=3000, name='MemFS exhaustive')
     ctx.cov['exhaustive'] = True
     # ---------------- (R) one test per transition
-    for backends, every in ((['mem'], 1), (['memview', 'memview2'], 4 if q else 1)):
+    for backends, every in ((['mem'], 2 if q else 1), (['memview', 'memview2'], 8 if q else 1)):
         shards, total, taken = vlib.shard_lines(ctx, r['out'], NPROC, every=every, offset=ctx.seed)
         m = vlib.run_sharded(ctx, lambda p: ['fscases', '--in', p, '--backends', ','.join(backends), '--workers', '1'], shards)
         ctx.cov['replay'].append(dict(backends=backends, model_transitions=total, executed=m['executed'],
